@@ -9,6 +9,10 @@ import time
 
 VERIF = os.path.dirname(os.path.dirname(os.path.abspath(__file__)))
 REPO = os.environ.get("HSVERIF_REPO", "/repo")
+# evidence and replay files describe runs against /repo itself; a run against another tree (HSVERIF_REPO: a seeded change,
+# a refactoring) writes them to a side directory so that it can never overwrite the evidence of the real tree
+OUT = VERIF if os.path.realpath(REPO) == "/repo" else os.path.join(
+    os.environ.get("HSVERIF_OUT", "/var/tmp/hsverif-other-trees"), os.path.basename(os.path.normpath(REPO)))
 if os.path.join(REPO, "src") not in sys.path:
     sys.path.insert(0, os.path.join(REPO, "src"))
 
@@ -206,7 +210,7 @@ class Report:
         self.assumptions = []
         self.notes = []
         self.findings = [f for f in load_findings().get("known", []) if f.get("property") == prop]
-        shutil.rmtree(os.path.join(VERIF, "replays", prop), ignore_errors=True)  # replay files of earlier runs
+        shutil.rmtree(os.path.join(OUT, "replays", prop), ignore_errors=True)  # replay files of earlier runs
         self._seen_sigs = set()
         self.sig_counts = {}
 
@@ -249,8 +253,8 @@ class Report:
             "wall_s": round(wall, 3),
             "violations": len(self.violations),
         }
-        os.makedirs(os.path.join(VERIF, "evidence"), exist_ok=True)
-        with open(os.path.join(VERIF, "evidence", self.prop + ".json"), "w") as f:
+        os.makedirs(os.path.join(OUT, "evidence"), exist_ok=True)
+        with open(os.path.join(OUT, "evidence", self.prop + ".json"), "w") as f:
             json.dump(ev, f, indent=1, sort_keys=True)
             f.write("\n")
         for f in self.findings:
@@ -262,7 +266,7 @@ class Report:
                 print("note: " + self_note)
         rc = 0
         if self.violations:
-            rdir = os.path.join(VERIF, "replays", self.prop)
+            rdir = os.path.join(OUT, "replays", self.prop)
             os.makedirs(rdir, exist_ok=True)
             for sig, rep in self.violations[:400]:
                 name = hashlib.sha256(json.dumps(sig, sort_keys=True).encode()).hexdigest()[:12] + ".json"
